@@ -43,7 +43,7 @@ STUB = ["choice of the running worker thread (baton scheduler, line events in mo
 ASSUMPTIONS = ["the eval'd equation lambdas and numpy/pandas run atomically between two pre-emption points",
                "double evaluation of an equation is allowed; a second VALUE for one (element, time) is not"]
 FAULT_KINDS = ["preemption"]
-PROBES = ["stochastic_scenario_run_repeatedly", "read_via_memoize", "read_via_call", "read_via_plot", "decimal_dt_race", "edit_after_dependant_read", "initial_value_edit", "preempted_between_check_and_store", "fresh_called_twice_for_one_time",
+PROBES = ["edit_landed_inside_a_run", "stochastic_scenario_run_repeatedly", "read_via_memoize", "read_via_call", "read_via_plot", "decimal_dt_race", "edit_after_dependant_read", "initial_value_edit", "preempted_between_check_and_store", "fresh_called_twice_for_one_time",
           "run_repeated", "scenario_reset_cache"]
 EXHAUSTIVE = {"quick": False, "thorough": False}
 
@@ -180,8 +180,22 @@ def generate(spec):
             ops.append({"op": "set_constant", "elem": rng.choice(["k1", "k2"]), "value": rng.choice([0.0, 0.5, 1.0, 3.0, -2.0])})
         elif r < 0.72:
             ops.append({"op": "evaluate", "elem": rng.choice(ELEMS), "t_index": rng.randrange(0, 7)})
-        elif r < 0.90:
+        elif r < 0.83:
             ops.append({"op": "run", "equations": rng.sample(ELEMS, rng.randint(1, 4))})
+        elif r < 0.90:
+            # an edit that lands WHILE a run is in flight (its own task, line-level schedule): whatever the run itself
+            # returns, afterwards every element evaluates as in a fresh model with the final definitions
+            kind = rng.choice(["set_constant", "set_constant", "set_initial", "set_equation"])
+            if kind == "set_constant":
+                ed = {"op": kind, "elem": rng.choice(["k1", "k2"]), "value": rng.choice([0.0, 0.5, 1.0, 3.0, -2.0])}
+            elif kind == "set_initial":
+                ed = {"op": kind, "elem": rng.choice(["s1", "s2"]), "value": rng.choice(INIT_CHOICES)}
+            else:
+                n = rng.choice(["c1", "c2", "f1", "b1", "s1", "s2"])
+                ed = {"op": kind, "elem": n, "idx": rng.randrange(NTPL[n])}
+            ops.append({"op": "run_with_edit", "equations": rng.sample(ELEMS, rng.randint(1, 3)), "edit": ed,
+                        "sched": {"kind": "random", "seed": rng.randrange(2**32), "p": rng.choice([0.02, 0.1, 0.3])}
+                        if rng.random() < 0.7 else {"kind": "pct", "seed": rng.randrange(2**32), "depth": rng.choice([1, 2]), "est": rng.choice([100, 300, 800])}})
         elif r < 0.95:
             ops.append({"op": "reset_cache"})
         else:
@@ -418,11 +432,56 @@ def _execute_edit(case):
                     return False
         return True
 
+    def apply_edit(op):
+        kind = op["op"]
+        if kind == "set_equation":
+            elem(live, op["elem"]).equation = _eq(live, op["elem"], op["idx"])
+        elif kind == "set_initial":
+            v = op["value"]
+            live.stocks[op["elem"]].initial_value = live.constants[v] if isinstance(v, str) else float(v)
+        else:
+            live.constants[op["elem"]].equation = float(op["value"])
+
     last_edit = [None]
     for n_op, op in enumerate(case["ops"]):
         log.add("op", n_op, op)
         kind = op["op"]
-        if kind == "set_equation":
+        if kind == "run_with_edit":
+            from sim.threads import run_tasks
+            ed = op["edit"]
+            if ed["op"] == "set_equation":
+                defs[ed["elem"]] = ed["idx"]
+            elif ed["op"] == "set_initial":
+                defs[ed["elem"] + "_init"] = ed["value"]
+            else:
+                defs[ed["elem"]] = ed["value"]
+            last_edit[0] = ed
+            with patches.installed(threads="sched"):
+                sim = SdSimulation(model=live, name="edit")
+                s2 = Scheduler(make_policy(op["sched"]), TRACE, log=None)
+                with s2:
+                    def editor():
+                        # the edit is ONE operation (the property speaks of interleavings of edit and evaluate operations,
+                        # at line granularity only for the workers of a run): indivisible, but it lands at an arbitrary
+                        # line of the run in flight
+                        s2.atomic_tid = s2.current.tid
+                        try:
+                            apply_edit(ed)
+                        finally:
+                            s2.atomic_tid = None
+                    out = run_tasks(s2, [lambda: sim.start(output=["frame"], equations=list(op["equations"])), editor])
+                res.points += s2.points
+            log.add("run_with_edit", [o[0] for o in out], s2.interleaving_hash())
+            if out[1][0] != "ok":
+                # the edit itself must go through; the run it overtook may legitimately see a half-edited model
+                res.violate("C08.a-edit-raised", {"op_index": n_op, "op": op, "exception": "%s: %s" % (type(out[1][1]).__name__, out[1][1])})
+            if out[0][0] != "ok":
+                res.probe("overtaken_run_raised")
+            if s2.taken:
+                res.probe("edit_landed_inside_a_run")
+                res.fault("preemption", len(s2.taken))
+            read_since_edit |= set(op["equations"])
+        elif kind == "set_equation":
             if read_since_edit:
                 res.probe("edit_after_dependant_read")
             defs[op["elem"]] = op["idx"]
